@@ -17,7 +17,7 @@ the `true` stored after the push is seen by the next `do_pending_writes` (no-str
 about interleavings, i.e. it presupposes the seq_cst semantics the code uses).
 
 Not part of this file: the wrapped object itself (protected by `m`, exclusive for the functions,
-shared for readers) — covered through the lockset theorem on the observed traces (`hb-deferred`). -/
+shared for readers) — see `Props/C07_deferred_obj.lean` (model-level) and the observed traces (`hb-deferred`). -/
 namespace ConcVerif.Deferred
 
 /-- **Queued closure, step form.**  After any accepted trace `es`, if the model accepts `ucb j` by
